@@ -110,7 +110,19 @@ def c05(tier):
     big = [{"cfg": {"k": k, "n": n}, "unit": 1, "mode": "window", "eps": [1, 1000000000], "float": "f64",
             "xs": shapes(rnd, n, -40, 40, 300 if tier == "quick" else 3000), "k": 1}
            for k in kinds for n in ((7, 14, 33, 100) if tier == "quick" else (7, 14, 16, 33, 64, 100, 257))]
+    # a long flat stretch (longer than any narrow run-length counter), then movement again; sparsely recorded, densely around the end
+    for k in kinds:
+        for n in (3, 14):
+            xs = shapes(rnd, n, -40, 40, 60) + [7] * 400 + shapes(rnd, n, -40, 40, 40)
+            big.append({"cfg": {"k": k, "n": n}, "unit": 1, "mode": "window", "eps": [1, 1000000000], "float": "f64", "xs": xs, "k": 1})
+            m = 66000 if tier == "quick" else 140000
+            xs = shapes(rnd, n, -40, 40, 50) + [-3] * m + shapes(rnd, n, -40, 40, 50)
+            big.append({"cfg": {"k": k, "n": n}, "unit": 1, "mode": "window", "eps": [1, 1000000000], "float": "f64", "xs": xs, "k": 3000,
+                        "dense": [[0, 60], [50 + 250, 50 + 262], [50 + m - 4, 50 + m + 50]]})
     run.submit(p3_stream_job, "rsi-big", "C05", big)
+    # over what an inner view delivers: a withheld first value (Sma), repeated values (a clip), held values (Roc)
+    chn = [dict(c, c=[i]) for c in cfgs(kinds, [2, 3]) for i in (sma(2), {"k": "GTE", "v": [1, 1]}, {"k": "Roc", "n": 1})]
+    run.submit(p1_job, "rsi-chain", "MC_Def", {"prop": "C05", "cfgs": chn, "alphabet": [-2, 0, 1, 3], "unit": 1, "maxlen": 6})
     return run.finish(RULE_DEF + "; plus recorded streams at larger N validated on the ghost window (P3)")
 
 @check("C06")
@@ -134,6 +146,11 @@ def c06(tier):
     big = [{"cfg": {"k": k, "n": n}, "unit": 1, "mode": "window", "eps": [1, 1000000000], "float": "f64",
             "xs": shapes(rnd, n, -40 if k != "CenterOfGravity" else 1, 40, 250 if tier == "quick" else 2000), "k": 1}
            for k in kinds for n in ((9, 16, 20, 48) if tier == "quick" else (9, 16, 20, 48, 100))]
+    # large windows, sparsely recorded (n(n-1)/2 pairs: 4950 at 100, 44850 at 300 - beyond any 8- or 16-bit counter)
+    for k in kinds:
+        for n, kk in ((100, 9), (300, 41)):
+            big.append({"cfg": {"k": k, "n": n}, "unit": 1, "mode": "window", "eps": [1, 1000000000], "float": "f64",
+                        "xs": shapes(rnd, n, -30, 30, 3 * n + 40), "k": kk, "dense": [[n - 2, n + 3]]})
     run.submit(p3_stream_job, "trend-big", "C06", big)
     f32_job(run, "C06", cfgs(kinds, [3, 4]), [-2, 0, 1, 3], 6)
     return run.finish(RULE_DEF + "; plus recorded streams at larger N validated on the ghost window (P3)")
@@ -256,6 +273,20 @@ def c14(tier):
             cfx.append({"k": "RefTanh", "c": [x]})
             cfx.append({"k": "Tanh", "c": [x], "iref": len(cfx)})
         run.submit(p1_job, "rounded-u%d" % unit, "MC_Def", {"prop": "C14", "cfgs": cfx, "alphabet": alpha, "unit": unit, "maxlen": L})
+    # signed zeros: the input symbol 2147483647 is fed as -0.0 (the number 0 to the specification).  One correctly rounded operation
+    # fixes the sign of a zero result; Tanh(-0.0) = -0.0 bit for bit; no answer may depend on the zero seen one step earlier
+    NZ = 2147483647
+    kidz = [E, {"k": "Constant", "v": [-1, 3]}, sma(2), {"k": "LTE", "v": [0, 1]}]
+    cfz = list(kidz)
+    for b in ("Add", "Subtract", "Multiply", "Divide"):
+        for i, x in enumerate(kidz):
+            for j, y in enumerate(kidz):
+                if not (b == "Divide" and y["k"] != "Constant"):
+                    cfz.append({"k": b, "c": [x, y], "ia": i + 1, "ib": j + 1})
+    for x in kidz:
+        cfz.append({"k": "RefTanh", "c": [x]})
+        cfz.append({"k": "Tanh", "c": [x], "iref": len(cfz)})
+    run.submit(p1_job, "rounded-negzero", "MC_Def", {"prop": "C14", "cfgs": cfz, "alphabet": [-2, 0, NZ, 3], "unit": 1, "maxlen": L})
     Kp = [E, {"k": "LnReturn"}, sma(2), {"k": "Constant", "v": [5, 4]}]
     cfp = [{"k": b, "c": [x, y]} for b in ("Add", "Subtract", "Multiply", "Divide") for x in Kp for y in Kp if "LnReturn" in (x["k"], y["k"])]
     cfp += [{"k": g, "v": [1, 4], "c": [{"k": "LnReturn"}]} for g in ("GTE", "LTE")] + [{"k": "Tanh", "c": [{"k": "LnReturn"}]}]
@@ -985,6 +1016,12 @@ def c18(tier):
             for period, ramp in (([12, 15, 11, 18, 18, 9, 14], 0), ([7], 0), ([0], 0), ([5, 5, 9, 9, 9, 2], 0),      # varied, constant, zero, ties
                                  ([100, 130, 110, 150, 120], 8), ([100, 80, 95, 60], -1)):         # rising zigzag (new highs for ever), falling
                 exps.append({"cfg": cfg, "unit": 10, "marks": [L0, 4 * L0, 16 * L0 if tier == "quick" else 256 * L0], "period": period, "ramp": ramp})
+            if n in (3, 16):
+                # the answer polled twice after every update; the view replaced by its clone every 7 updates; the f32 instantiation
+                base = {"cfg": cfg, "unit": 10, "marks": [L0, 4 * L0, 16 * L0 if tier == "quick" else 64 * L0], "period": [12, 15, 11, 18, 18, 9, 14], "ramp": 0}
+                exps.append(dict(base, poll=2))
+                exps.append(dict(base, clone_every=7, poll=1))
+                exps.append(dict(base, float="f32", ramp=3))
     # model level: the machines' buffers stay under CellBound along constant and two-symbol streams four windows long
     for n in ((1, 3, 16) if tier == "quick" else (1, 2, 3, 5, 16, 64)):
         run.submit(model_job, "cells-n%d" % n, {"cfgs": [c for c in catalogue(n) if modelled(c)], "alphabet": [2] if n > 3 else [-1, 2], "unit": 1,
